@@ -134,6 +134,67 @@ theorem removed_never_called (s : Proto) (hs : s.Sorted) (t : Nat) (ht : t ∉ t
       · intro heq; exact ht (heq ▸ h1' c hc)
       · exact h2' c hc
 
+/-! ### the same for re-entrant invocations (a callback's loop-back send) -/
+
+theorem loopCalls_tokens (a : UInt16) (hs : List (Nat × Handler)) (qs : List Packet) :
+    ∀ c ∈ loopCalls a hs qs, c.1 ∈ hs.map fun x => x.2.token := by
+  intro c hc
+  simp only [loopCalls, List.mem_flatMap, List.mem_map] at hc
+  obtain ⟨q, _, x, hx, rfl⟩ := hc
+  exact List.mem_map.mpr ⟨x, hx, rfl⟩
+
+theorem dispatch_ncalls (s : Proto) (p : Packet) (owned : Bool) :
+    ∃ new, ncallsOf (s.dispatch p owned).log = ncallsOf s.log ++ new ∧ ∀ c ∈ new, c.1 ∈ tokens s := by
+  refine ⟨_, (dispatch_spec s p owned).2.2.1, ?_⟩
+  intro c hc
+  obtain ⟨h, _, hc'⟩ := List.mem_flatMap.mp hc
+  exact loopCalls_tokens s.addr s.handlers h.sends c hc'
+
+/-- re-entrant handler invocations a single operation adds to the log -/
+theorem step_ncalls (s : Proto) (op : Op) :
+    ∃ new, ncallsOf (s.step op).log = ncallsOf s.log ++ new ∧ ∀ c ∈ new, c.1 ∈ tokens s := by
+  cases op with
+  | add h => exact ⟨[], by simp [Proto.step, Proto.add], by simp⟩
+  | remove id =>
+    refine ⟨[], ?_, by simp⟩
+    simp only [Proto.step, Proto.remove]; split <;> simp
+  | tick =>
+    simp only [Proto.step, Proto.tick]
+    rcases h : s.rxQueue with _ | ⟨r, q⟩
+    · exact ⟨[], by simp, by simp⟩
+    · rcases r with e | p
+      · cases e <;> exact ⟨[], by simp, by simp⟩
+      · exact dispatch_ncalls { s with rxQueue := q } p _
+  | send p =>
+    simp only [Proto.step, Proto.sendPacket]
+    split
+    · split
+      · exact dispatch_ncalls s p true
+      · obtain ⟨new, h1, h2⟩ := dispatch_ncalls s p true
+        exact ⟨new, (ifaceSend_ncalls _ p).trans h1, h2⟩
+    · exact ⟨[], by simpa using ifaceSend_ncalls s p, by simp⟩
+
+/-- C17 over histories: a handler that is not registered is not invoked re-entrantly either (by the loop-back send of
+another handler's callback), whatever happens afterwards, as long as it is not registered again -/
+theorem removed_never_called_nested (s : Proto) (hs : s.Sorted) (t : Nat) (ht : t ∉ tokens s) (ops : List Op)
+    (hops : ∀ op ∈ ops, ∀ h, op = .add h → h.token ≠ t) :
+    ∃ new, ncallsOf (s.reach ops).log = ncallsOf s.log ++ new ∧ ∀ c ∈ new, c.1 ≠ t := by
+  induction ops generalizing s with
+  | nil => exact ⟨[], by simp [Proto.reach], by simp⟩
+  | cons op ops ih =>
+    obtain ⟨n1, h1, h1'⟩ := step_ncalls s op
+    have hs' : (s.step op).Sorted := reach_sorted s hs [op]
+    have ht' := step_tokens s hs op t ht (hops op (by simp))
+    obtain ⟨n2, h2, h2'⟩ := ih (s.step op) hs' ht' (fun o ho => hops o (by simp [ho]))
+    refine ⟨n1 ++ n2, ?_, ?_⟩
+    · simp only [Proto.reach, List.foldl_cons] at h2 ⊢
+      rw [h2, h1, List.append_assoc]
+    · intro c hc
+      rcases List.mem_append.mp hc with hc | hc
+      · intro heq; exact ht (heq ▸ h1' c hc)
+      · exact h2' c hc
+
 #print axioms reach_sorted
 #print axioms removed_never_called
+#print axioms removed_never_called_nested
 end Ross
